@@ -46,6 +46,15 @@ def cache_pressure(c, upto):
     l2_per_slice = (1 << g.l2[0]) // 8
     rb_per_slice = ((1 << g.rb[0]) * 8) >> g.ro
     host_upper = g.size // g.cs + 24
+    if not c.get('images'):
+        # library-formatted image: the host clusters in use are at most the initial metadata, one L2 table per L1 entry
+        # and one cluster per guest cluster written so far
+        written = set()
+        for b in c['batches'][:upto + 1]:
+            for o in list(b.get('prelude', [])) + list(b['ops']):
+                if o[0] == 'W':
+                    written |= clusters_of(o, g)
+        host_upper = min(host_upper, 10 + (g.size // g.cs) // (g.cs // 8) + 1 + len(written))
     if (host_upper + rb_per_slice - 1) // rb_per_slice > rb_slots:
         return True
     for b in c['batches'][:upto + 1]:
@@ -87,7 +96,15 @@ def run_conc(prop, tier, seed, replay, extra=None, gate0=None):
         ro = rng.choice([0, 2, 4, 4, 6])
         nclus = rng.choice([8, 16, 40, 130])
         bs, l2, rb = 9, (9, rng.choice([2, 2, 3, 8]) << 9), (9, rng.choice([2, 2, 3, 8]) << 9)
+        if rng.random() < 0.06:
+            # few clusters per refblock slice and the smallest refblock cache: allocation evicts refblock slices
+            cb, ro, nclus, rb = 9, 6, rng.choice([160, 200]), (9, 2 << 9)
         g = hist.Geom(cb, ro, nclus << cb, bs, l2, rb, punch=rng.choice([1, 1, 0]))
+        if rng.random() < 0.08:
+            # L2 slices smaller than a cluster, and a host file whose tail (where new clusters land) holds stale bytes
+            cbx = rng.choice([10, 11])
+            g = hist.Geom(cbx, rng.choice([4, 6]), rng.choice([140, 200]) << cbx, 9, (9, rng.choice([2, 3, 8]) << 9), rb, punch=rng.choice([1, 1, 0]))
+            g.tail = (rng.choice([24, 64]) << cbx, rng.choice([0xEE, 0x80, 0x01]))
         cid = '%s_%d' % (prop.lower(), k)
         init = None
         images = None
